@@ -28,7 +28,7 @@ REQUIRED_THEOREMS = ["C17_records_getattr", "C17_records_statistics_getattr", "C
                      "C17_saver_file", "C17_records_metric_run", "C17_records_observable_run",
                      "C17_records_get_value", "C17_records_get_value_out_of_range", "C17_independent",
                      "C17_fit_stream", "C17_fit_schedule", "C17_fit_callbacks", "C17_fit_stopped_beforehand",
-                     "C17_saver_file_last", "C17_saver_file_overwrite", "C17_saver_file_none", "C17_logger_default_msg",
+                     "C17_saver_file_last", "C17_saver_file_overwrite", "C17_saver_file_none", "C17_logger_default_msg", "C17_logger_msg_gen_fallback", "C17_logger_fn_branches",
                      # extension round 2: verbose branches (order of effects), names / CSV columns
                      "C17_verbose_irrelevant_when_formattable", "C17_verbose_run_irrelevant_when_formattable", "C17_verbose_identity_test",
                      "C17_verbose_unformattable_partial", "C17_verbose_irrelevant_when_formattable_observable",
@@ -1636,6 +1636,97 @@ def verbose_cases(ctx, n):
         verbose_case(ctx, gen_verbose_case(ctx.rng, kind, stream))
 
 
+# ---------------------------------------------------------------- Logger: msg_gen fallback and logger_fn branches (extension round 2)
+# Callbacks.Logger.new / stepFn / runFn; theorems C17_logger_msg_gen_fallback, C17_logger_fn_branches.
+NONCALLABLE_OBJS = {"str": "not a function", "int": 7, "dict": {"a": 1}, "none": None, "list": [1, 2]}
+
+
+def logger_fn_case(ctx, case):
+    """a REAL fit of a tiny positive state with ONE Logger: msg_gen omitted / callable / a non-callable object, logger_fn omitted (print, stdout
+    captured) / callable (recorded) / a non-callable object; the model gets the epoch ends of the run"""
+    import contextlib
+    import io
+
+    from qucumber.callbacks import Logger
+    from qucumber.nn_states import PositiveWaveFunction
+    torch.manual_seed(case["tseed"])
+    st = PositiveWaveFunction(2, 2, gpu=False)
+    data = torch.tensor([[0, 1], [1, 0], [1, 1], [0, 0]], dtype=torch.double)
+    handed = []
+    kw = dict(case["kwargs"])
+    args = {}
+    if case["msg"] == "callable":
+        args["msg_gen"] = lambda nn_state, epoch, **k: "gen " + str(epoch)
+    elif case["msg"] == "noncallable":
+        args["msg_gen"] = NONCALLABLE_OBJS[case["msg_obj"]]
+    if case["fn"] == "callable":
+        args["logger_fn"] = handed.append
+    elif case["fn"] == "noncallable":
+        args["logger_fn"] = NONCALLABLE_OBJS[case["fn_obj"]]
+    lg = Logger(case["period"], **args, **kw)
+    buf = io.StringIO()
+    raised = None
+    with contextlib.redirect_stdout(buf):
+        try:
+            st.fit(data, epochs=case["epochs"], pos_batch_size=2, neg_batch_size=2, k=1, lr=0.01, starting_epoch=case["start"], callbacks=[lg])
+        except Exception as e:  # noqa: BLE001
+            raised = type(e).__name__
+    text = buf.getvalue()
+    printed = [] if text == "" else (text.split("\n")[:-1] if text.endswith("\n") else ["<unterminated>"] + text.split("\n"))
+    fired = list(range(case["start"], case["epochs"] + 1))
+    sched = [e for e in fired if e % case["period"] == 0]
+    ctx.count(f"logger_fn:msg={case['msg']}/fn={case['fn']}/scheduled={'some' if sched else 'none'}")
+    sig = f"C17/logger_fn/{case['msg']}/{case['fn']}"
+    cs = dict(case)
+    # property oracle on the implementation: one emission per scheduled epoch, none at any other time (only where something CAN be emitted)
+    if case["fn"] != "noncallable":
+        got = handed if case["fn"] == "callable" else printed
+        other = printed if case["fn"] == "callable" else handed
+        ctx.oracle("logger: exactly one message per epoch that is a multiple of p (print -> one stdout line each), nothing elsewhere",
+                   raised is None and len(got) == len(sched) and other == [], cs, {"raised": raised, "got": got, "other": other, "scheduled": sched},
+                   sig=sig + "/count-oracle", theorem="C17_logger_fn_branches")
+        if case["msg"] == "callable":
+            ctx.oracle("logger: the messages are msg_gen(state, e) of the scheduled epochs, in order", got == ["gen " + str(e) for e in sched], cs,
+                       {"got": got}, sig=sig + "/epochs-oracle", theorem="C17_logger_fn_branches, C17_logger_msg_gen_fallback")
+    if ctx.driver is not None:
+        m = ctx.driver.call("c17.logger_fn", period=case["period"], msg=case["msg"], fn=case["fn"], kwargs_repr=str(kw), epochs=fired)
+        if case["fn"] != "noncallable":
+            ctx.point("logger_fn: number of messages handed / lines printed", "property", [len(handed), len(printed), raised is not None],
+                      [len(m["handed"]), len(m["printed"]), m["err"] is not None], cs, exact=True, sig=sig + "/count", theorem="C17_logger_fn_branches")
+            lvl = "property" if case["msg"] == "callable" else "aux"   # the TEXT of the default message is not in the property
+            ctx.point("logger_fn: message texts (handed, printed)", lvl, [handed, printed], [m["handed"], m["printed"]], cs, exact=True, sig=sig + "/text",
+                      theorem="C17_logger_fn_branches, C17_logger_msg_gen_fallback")
+        else:
+            # a logger_fn that cannot be called: the property does not say what happens -> auxiliary, refused-or-not only
+            ctx.point("logger_fn non-callable: run refused iff a scheduled epoch end occurs; nothing emitted", "aux", [raised is not None, handed, printed],
+                      [m["err"] is not None, m["handed"], m["printed"]], cs, exact=True, sig=sig + "/refusal", theorem="C17_logger_fn_branches")
+    ctx.case({"logger_fn": {k: case[k] for k in ("period", "msg", "fn", "msg_obj", "fn_obj", "start", "epochs", "kwargs")}}, nontrivial=bool(sched),
+             sample={"logger_fn": case["fn"], "msg": case["msg"], "scheduled": sched})
+
+
+def gen_logger_fn(rng):
+    start = rng.choice([1, 1, 2, 3])
+    return {"logger_fn_case": True, "period": rng.choice([1, 2, 2, 3, 4, 7]), "msg": rng.choice(["omitted", "callable", "noncallable", "noncallable"]),
+            "fn": rng.choice(["print", "print", "callable", "noncallable"]), "msg_obj": rng.choice(["str", "int", "dict", "list"]),
+            "fn_obj": rng.choice(["str", "int", "none", "dict"]), "start": start, "epochs": start + rng.choice([0, 1, 3, 5]),
+            "kwargs": rng.choice([{}, {"tag": "x"}, {"a": 1, "b": "two"}]), "tseed": rng.randrange(1, 2 ** 31)}
+
+
+def logger_fn_cases(ctx, count):
+    fixed = [
+        {"period": 2, "msg": "noncallable", "msg_obj": "str", "fn": "print", "fn_obj": "none", "start": 1, "epochs": 5, "kwargs": {"tag": "x"}},
+        {"period": 1, "msg": "omitted", "msg_obj": "str", "fn": "print", "fn_obj": "none", "start": 1, "epochs": 3, "kwargs": {}},
+        {"period": 3, "msg": "callable", "msg_obj": "str", "fn": "print", "fn_obj": "none", "start": 2, "epochs": 7, "kwargs": {}},
+        {"period": 2, "msg": "callable", "msg_obj": "str", "fn": "callable", "fn_obj": "none", "start": 1, "epochs": 4, "kwargs": {"a": 1}},
+        {"period": 2, "msg": "omitted", "msg_obj": "str", "fn": "noncallable", "fn_obj": "none", "start": 1, "epochs": 4, "kwargs": {}},
+        {"period": 4, "msg": "noncallable", "msg_obj": "int", "fn": "noncallable", "fn_obj": "str", "start": 1, "epochs": 3, "kwargs": {}},
+    ]
+    for c in fixed:
+        logger_fn_case(ctx, dict(c, logger_fn_case=True, tseed=11))
+    for _ in range(count):
+        logger_fn_case(ctx, gen_logger_fn(ctx.rng))
+
+
 def run(ctx):
     ctx.rule = RULE
     if ctx.driver is not None:
@@ -1648,6 +1739,7 @@ def run(ctx):
     verbose_cases(ctx, 120 if ctx.tier == "thorough" else 32)
     for case in gen_cases(ctx, ctx.tier == "thorough"):
         run_case(ctx, case)
+    logger_fn_cases(ctx, 120 if ctx.tier == "thorough" else 40)   # last: the older seeded streams are unchanged
 
 
 def format_spec_cases(ctx, forms=True):
@@ -1804,11 +1896,15 @@ def search(ctx):
         verbose_cases(ctx, 120)
         for case in gen_cases(ctx, True):
             run_case(ctx, case)
+        logger_fn_cases(ctx, 120)
     finally:
         ctx.driver = drv
 
 
 def replay(ctx, case):
+    if case.get("logger_fn_case"):
+        logger_fn_case(ctx, case)
+        return
     if case.get("verbose_case"):
         verbose_case(ctx, case)
         return
